@@ -5,6 +5,7 @@ import GV.Lib.EngTrace
          every event is admitted).
   spec : from the prescribed conversation: which sent messages advanced the local state (T),
          what may be on the wire (W: at least T, at most everything enqueued, in queue order),
+         no empty segment (Z: a real peer's muxer treats a zero-length segment as an error),
          the first error; for `pair`: both sides see the whole conversation and no error.
 -/
 namespace GV.Drv.C12
@@ -13,7 +14,7 @@ open GV.Line GV.SM GV.EngTrace
 def specEng (c : Conv) (locals : List Sym) : String :=
   if c.err = "-" then
     "||".intercalate ((List.range (locals.length + 1 - c.sent.length)).map (fun d =>
-      s!"H={symsStr c.handled} E=- T={symsStr c.sent} W={typesStr (locals.take (c.sent.length + d))} *"))
+      s!"H={symsStr c.handled} E=- T={symsStr c.sent} W={typesStr (locals.take (c.sent.length + d))} Z=0 *"))
   else if c.err = "send-not-allowed" then
     -- the refused message never advances the state; when it is the very first message the
     -- application sends it is the head of a batch and must not reach the wire at all
@@ -22,7 +23,7 @@ def specEng (c : Conv) (locals : List Sym) : String :=
     let ws := if c.sent.isEmpty then [([] : List Sym)]
               else (List.range (locals.length + 1)).map (fun k => locals.take k)
     "||".intercalate ((prefixes c.handled).flatMap (fun h => ws.map (fun w =>
-      s!"H={symsStr h} E=send-not-allowed T={symsStr c.sent} W={typesStr w} *")))
+      s!"H={symsStr h} E=send-not-allowed T={symsStr c.sent} W={typesStr w} Z=0 *")))
   else "*"
 
 def splitConv : List String → List Sym → List Sym → Option (List Sym × List Sym)
